@@ -6,7 +6,7 @@ d=$(mktemp -d /var/tmp/verif-seedrun-XXXX)
 git -C /repo worktree add -q --detach "$d/w" HEAD || exit 2
 cp /repo/Cargo.lock "$d/w/" 2>/dev/null
 git -C "$d/w" apply "$PWD/$sd/patch.diff" || { echo "$sd: patch does not apply"; git -C /repo worktree remove --force "$d/w"; rm -rf "$d"; exit 3; }
-args="--tier quick --no-evidence --jobs ${SEED_JOBS:-5}"
+args="--tier ${SEED_TIER:-quick} --no-evidence --jobs ${SEED_JOBS:-5}"
 [ -n "$only" ] && args="$args --only $only"
 VERIF_REPO="$d/w" timeout 3000 ./check $prop $args > "$d/out.log" 2>&1; rc=$?
 mkdir -p /tmp/seedlogs; cp "$d/out.log" "/tmp/seedlogs/$(basename $sd)_$prop.log" 2>/dev/null
